@@ -65,6 +65,17 @@ def gen(seed, tier):
             else:
                 ops.append(smsg(r, r.randrange(ndev), r.choice(FAST), r.choice([5, 9, 13, 14, 30, 100, 223])))
         cases.append(cfg + ' | ' + ' ; '.join(ops))
+    # large queues (7..9 devices x 40, or an explicit size above 256 / near the uint16_t range): more than 256 frames queued under a long
+    # refusal, then drained - the ring indices are 16 bit wide in the code
+    for ndev, q, nmsg in ([(7, 40, 9), (9, 40, 12), (1, 300, 10), (1, 1000, 33)] + ([(1, 65535, 40), (2, 20000, 60)] if thorough else [])):
+        cfg = 'NODE mode=1 ndev=%d src=30 q=%d t0=5000 %s' % (ndev, q, ' '.join('tx%d=%s' % (i, ','.join(map(str, FAST))) for i in range(ndev)))
+        ops = ['A ' + '0' * (nmsg * 33 + 50)]
+        for k in range(nmsg):
+            ops.append(smsg(r, k % ndev, r.choice(FAST), r.choice([223, 223, 200, 150])))
+            if k % 5 == 4:
+                ops.append('F')
+        ops += ['A ' + '1' * 100 + '0' * 7, 'F', smsg(r, 0, 127250, 8), 'A', 'F', smsg(r, 0, 129029, 30), 'F']
+        cases.append(cfg + ' | ' + ' ; '.join(ops))
     return cases
 
 
